@@ -137,50 +137,52 @@ def check_written(case, built, text, ctx: Ctx, check_preserve: bool):
     spread = 0.0
     if check_preserve:
         for ap in built.applied:
-            if len(ap["kwargs"]) != 1:
-                continue
-            kw = ap["kwargs"][0]
-            pres = kw.get("preserve", "c2c_expansion")
-            if pres not in ("start_size", "end_size"):
+            kws = ap["kwargs"]  # sections in the chopped block's own sense
+            # the first section may ask to keep the first cell, the last section the last cell (a single section: either)
+            asked = []
+            if kws[0].get("preserve") == "start_size":
+                asked.append(("start_size", kws[0].get("start_size"), ap["sign"] > 0))
+            if kws[-1].get("preserve") == "end_size":
+                asked.append(("end_size", kws[-1].get("end_size"), ap["sign"] < 0))
+            if not asked:
                 continue
             fi = fam_of[(ap["cell"], ap["gdir"])]
-            # the preserved end in the global sense: local start of the chopped block, mapped through its sign
-            at_low = (pres == "start_size") == (ap["sign"] > 0)
-            named = kw.get(pres)
-            sizes_at_end = []
-            lengths = []
-            for oi, cell in enumerate(built.cells):
-                for la in range(3):
-                    gdir, sign = built.axes[oi][la]
-                    if fam_of[(cell, gdir)] != fi:
-                        continue
-                    h = bmd.blocks[oi]
-                    grads = hex_edge_gradings(h)
-                    for k in range(4 * la, 4 * la + 4):
-                        i, j = EDGE_GRADING_ORDER[k]
-                        a, b = h.ids[i], h.ids[j]
-                        g = grads[k]
-                        spec = g if isinstance(g, list) else [[1.0, h.counts[la], g]]
-                        length = arcs.get(frozenset((a, b)), float(np.linalg.norm(pos[b] - pos[a])))
-                        seq = multi_sizes(length, spec)
-                        first_is_low = sign > 0
-                        val = seq[0] if first_is_low == at_low else seq[-1]
-                        sizes_at_end.append((oi, la, k, val))
-                        lengths.append(length)
-            vals = [v[3] for v in sizes_at_end]
-            ref = named if named is not None else vals[0]
-            # vertices are printed with 8 decimals: allow that rounding of the edge length
-            tol = lambda L: TOLR + 4e-8 / L  # noqa: E731
-            for (oi, la, k, v), L in zip(sizes_at_end, lengths):
-                if abs(v - ref) > tol(L) * max(abs(ref), abs(v)) * (1 if True else 1):
-                    raise Violation(
-                        "preserved-size-not-realised",
-                        f"preserve={pres}: block {oi} axis {la} edge #{k} has {v} at the preserved end, expected {ref}"
-                        f" ({'named by the chop' if named is not None else 'value on the first edge'})",
-                        preserve=pres, named=named is not None, **facts,
-                    )
-            spread = max(spread, max(lengths) / min(lengths) - 1)
-            ctx.label("preserve:" + pres)
+            for pres, named, at_low in asked:
+                sizes_at_end = []
+                lengths = []
+                for oi, cell in enumerate(built.cells):
+                    for la in range(3):
+                        gdir, sign = built.axes[oi][la]
+                        if fam_of[(cell, gdir)] != fi:
+                            continue
+                        h = bmd.blocks[oi]
+                        grads = hex_edge_gradings(h)
+                        for k in range(4 * la, 4 * la + 4):
+                            i, j = EDGE_GRADING_ORDER[k]
+                            a, b = h.ids[i], h.ids[j]
+                            g = grads[k]
+                            spec = g if isinstance(g, list) else [[1.0, h.counts[la], g]]
+                            length = arcs.get(frozenset((a, b)), float(np.linalg.norm(pos[b] - pos[a])))
+                            seq = multi_sizes(length, spec)
+                            first_is_low = sign > 0
+                            val = seq[0] if first_is_low == at_low else seq[-1]
+                            sizes_at_end.append((oi, la, k, val))
+                            lengths.append(length)
+                vals = [v[3] for v in sizes_at_end]
+                ref = named if named is not None else vals[0]
+                # vertices are printed with 8 decimals: allow that rounding of the edge length
+                tol = lambda L: TOLR + 4e-8 / L  # noqa: E731
+                for (oi, la, k, v), L in zip(sizes_at_end, lengths):
+                    if abs(v - ref) > tol(L) * max(abs(ref), abs(v)):
+                        raise Violation(
+                            "preserved-size-not-realised",
+                            f"preserve={pres}: block {oi} axis {la} edge #{k} has {v} at the preserved end, expected {ref}"
+                            f" ({'named by the chop' if named is not None else 'value on the first edge'}; "
+                            f"{len(kws)} section(s))",
+                            preserve=pres, named=named is not None, sections=len(kws), **facts,
+                        )
+                ctx.label("preserve:" + pres + ("/multi-section" if len(kws) > 1 else ""))
+                spread = max(spread, max(lengths) / min(lengths) - 1)
     shared = sum(1 for u in seqs.values() if len(u) >= 2)
     return bmd, shared, anti, spread
 
@@ -195,6 +197,10 @@ def check_wellposed(case, ctx: Ctx) -> None:
             lt.move_after_assembly(case, built)
             ctx.label("moved-after-assembly")
         text, _ = lt.write_text(built.mesh)
+        if case.get("history") == "write-write":
+            # the file of a second write of the same mesh is judged (nothing may have been turned round by the first)
+            text, _ = lt.write_text(built.mesh)
+            ctx.label("second-write-judged")
     except (UndefinedGradingsError, InconsistentGradingsError) as ex:
         raise Violation("wellposed-rejected", f"{type(ex).__name__}: {ex}", **facts) from None
     except (ValueError, ArithmeticError):  # a size/ratio combination that cannot be realised on some edge
@@ -210,26 +216,35 @@ def check_wellposed(case, ctx: Ctx) -> None:
 
 
 @st.composite
-def graded_case(draw, multi: bool):
+def graded_case(draw, multi: bool, curved: bool = False):
     case = draw(lt.chopped_lattice("wellposed", graded=True, jitter="yes", min_cells=2))
     # one case in four: the blocks are built regular and the vertices are moved after assembly (optimiser-style)
-    case["jitter_after_assembly"] = draw(st.integers(0, 3)) == 0
+    case["jitter_after_assembly"] = draw(st.integers(0, 3)) == 0 and not curved
     case["write_before_move"] = draw(st.booleans())
+    case["history"] = draw(st.sampled_from(["write", "write", "write-write"]))
     if not case["jitter_after_assembly"]:
-        case["arcs"] = lt.draw_arcs(draw, case)
+        case["arcs"] = lt.draw_arcs(draw, case, prefer_shared=True, min_arcs=1 if curved else 0, max_arcs=3 if curved else 2)
     if multi:
         # replace some chops by 2-3 section graded chops
         for ch in case["chops"]:
             if draw(st.booleans()):
                 k = draw(st.integers(2, 3))
                 lrs = draw(st.sampled_from({2: [[0.5, 0.5], [0.3, 0.7]], 3: [[0.25, 0.5, 0.25], [0.2, 0.3, 0.5]]}[k]))
+                # boundary layers: the first section keeps the first cell's size, the last section the last cell's
+                walls = draw(st.sampled_from(["none", "both", "low", "high"]))
                 secs = []
-                for lr in lrs:
+                for si, lr in enumerate(lrs):
                     n = draw(st.integers(1, 6))
                     r = draw(st.floats(0.8, 1.25))
                     sec = {"length_ratio": lr, "count": n}
                     if n > 1 and draw(st.booleans()):
                         sec["c2c_expansion"] = r
+                    if si == 0 and walls in ("both", "low"):
+                        sec = {"length_ratio": lr, "start_size_frac": draw(st.floats(0.05, 0.3)),
+                               "c2c_expansion": draw(st.floats(1.0, 1.25)), "preserve": "start_size"}
+                    if si == len(lrs) - 1 and walls in ("both", "high"):
+                        sec = {"length_ratio": lr, "end_size_frac": draw(st.floats(0.05, 0.3)),
+                               "c2c_expansion": draw(st.floats(0.8, 1.0)), "preserve": "end_size"}
                     secs.append(sec)
                 ch["args"] = secs
     return case
@@ -283,11 +298,14 @@ def check_redundant(case, ctx: Ctx) -> None:
 
 
 CELLS = [
-    Cell("C04/wellposed/single", graded_case(False), check_wellposed, 150, 6000,
+    Cell("C04/wellposed/single", graded_case(False), check_wellposed, 600, 12000,
          "one graded chop per family, all preserve modes; shared-edge sequences, printed = wire grading, preserved sizes"),
-    Cell("C04/wellposed/multi", graded_case(True), check_wellposed, 100, 4000,
-         "as single, with 2-3 section chops in some families"),
-    Cell("C04/redundant", redundant_case().filter(lambda c: c is not None), check_redundant, 150, 5000,
+    Cell("C04/wellposed/multi", graded_case(True), check_wellposed, 600, 12000,
+         "as single, with 2-3 section chops in some families (first / last section may preserve the wall cell's size)"),
+    Cell("C04/wellposed/curved", graded_case(False, curved=True), check_wellposed, 600, 12000,
+         "as single, with 1-3 circular arcs, mostly on edges shared by several blocks and declared by a drawn one of them "
+         "(either direction, any insertion order): preserved sizes are realised on the arc's true length"),
+    Cell("C04/redundant", redundant_case().filter(lambda c: c is not None), check_redundant, 400, 8000,
          "two chopped blocks in one family, same count, possibly different expansion: InconsistentGradingsError or "
          "matching sequences on every shared edge"),
 ]
